@@ -82,12 +82,12 @@ PROPS = {
     ),
     'C09': dict(
         modules=['NitroVerif.Props.C09'],
-        runs=[('mvcc', gens.gen_mvcc_iter, 400, 40000), ('mvcc', gens.gen_mvcc_visit, 100, 5000)],
+        runs=[('mvcc', gens.gen_mvcc_iter, 400, 40000), ('mvcc', gens.gen_mvcc_visit, 100, 5000), ('mvcc', gens.gen_backup, 40, 2000)],
         keep_prefix=1,
         level='proof',
         level_text='C09_iterator_exact, C09_rate_independent, C09_refresh_independent: Seek/SeekFirst/Next/Refresh of the model iterator equal the positions in the snapshot content for every reachable state and every call sequence; refresh rates and explicit refreshes are unobservable. The skip and refresh conditions and the operation order inside Next/Refresh/Seek are regenerated from iterator.go',
         trusted=['Lean 4 kernel', 'tools/gofacts translation of skipUnwanted, the refresh condition and the skeletons of Iterator.Next/Refresh/Seek/SeekFirst',
-                 'differential run of iterator-heavy histories (seek keys present/absent/outside, refresh rates 0..5, explicit Refresh, mutation under the iterator)'],
+                 'differential run of iterator-heavy histories (seek keys present/absent/outside, refresh rates 0..5, explicit Refresh, mutation under the iterator), incl. restored instances whose items are deleted / re-inserted and then sought exactly'],
     ),
     'C10': dict(
         modules=['NitroVerif.Props.C10', 'NitroVerif.Props.C10pool'],
